@@ -17,7 +17,7 @@ import time
 VERIF = os.path.dirname(os.path.dirname(os.path.abspath(__file__)))
 REPO = os.environ.get("PYREALB_REPO", "/repo")
 LEAN = os.path.join(VERIF, "lean")
-DRIVER = os.path.join(LEAN, ".lake", "build", "bin", "driver")
+BIN = os.path.join(LEAN, ".lake", "build", "bin")
 ALLOWED_AXIOMS = {"propext", "Classical.choice", "Quot.sound"}
 FORBIDDEN = re.compile(r"\bsorry\b|\badmit\b|^axiom |native_decide|bv_decide|implemented_by|\bunsafe |maxHeartbeats 0")
 
@@ -162,10 +162,13 @@ def audit_sources():
     return hits
 
 
-def run_driver(lines, timeout=3000):
-    """pipes protocol lines (dicts) to the compiled model driver; returns the list of answers (dicts)"""
+def run_driver(lines, exe, timeout=3000):
+    """pipes protocol lines (dicts) to the compiled model driver `exe`; returns the list of answers (dicts)"""
+    DRIVER = os.path.join(BIN, exe)
     if not os.path.exists(DRIVER):
         raise Infra("driver not built: " + DRIVER)
+    if not lines:
+        return []
     data = "\n".join(json.dumps(l, ensure_ascii=False, separators=(",", ":")) for l in lines) + "\n"
     p = subprocess.run([DRIVER], input=data.encode("utf-8"), capture_output=True, timeout=timeout)
     if p.returncode != 0:
@@ -183,11 +186,26 @@ def run_driver(lines, timeout=3000):
 # ---------------------------------------------------------------------------------------------
 
 def load_known():
-    p = os.path.join(VERIF, "known_findings.json")
-    try:
-        return json.load(open(p, encoding="utf-8"))
-    except FileNotFoundError:
-        return {"findings": [], "fixed": []}
+    """known_findings.json (committed, never written at run time).  While a property is being developed its
+    entries may live in known_findings.d/Cnn.json; harness/mkfindings.py merges them into the single file."""
+    res = {"findings": [], "fixed": []}
+    paths = [os.path.join(VERIF, "known_findings.json")]
+    d = os.path.join(VERIF, "known_findings.d")
+    if os.path.isdir(d):
+        paths += sorted(os.path.join(d, f) for f in os.listdir(d) if f.endswith(".json"))
+    seen = set()
+    for p in paths:
+        try:
+            j = json.load(open(p, encoding="utf-8"))
+        except FileNotFoundError:
+            continue
+        for k in ("findings", "fixed"):
+            for e in j.get(k, []):
+                key = canon(e)
+                if key not in seen:
+                    seen.add(key)
+                    res[k].append(e)
+    return res
 
 
 def canon(x):
@@ -214,6 +232,8 @@ class Ctx:
         self.notes = {}
         self.theorems = {}
         self.exhaustive = False
+        self.driver = None
+        self.deep = False
 
     # --- coverage bookkeeping
     def count(self, line, answer, trivial=False):
@@ -239,7 +259,7 @@ class Ctx:
     def correspond(self, lines, impl_fn, trivial_fn=None, model_post=None):
         """runs `lines` through the model driver and through impl_fn (real code); diffs canonical answers.
         returns the list of (line, model_answer, impl_answer)"""
-        model = run_driver(lines)
+        model = run_driver(lines, self.driver)
         res = []
         for l, m in zip(lines, model):
             if "driver_error" in m:
@@ -270,10 +290,14 @@ def main_check(prop, tier, seed, module, replay=None):
     """module: harness.props.Cnn with run(ctx) and META"""
     ctx = Ctx(prop, tier, seed)
     meta = module.META
+    ctx.driver = meta["driver"]
     try:
         from harness import translate
-        translate.run_all()
-        targets = ["Pyrealb.Props." + prop, "driver"]
+        try:
+            ctx.notes["regenerated"] = translate.run_all(only=meta.get("translators"))
+        except translate.TranslateError as e:
+            ctx.proof_failures.append({"theorem": "translator", "msg": str(e)[:500]})
+        targets = ["Pyrealb.Props." + prop, ctx.driver]
         ok, log, fails = lake_build(targets)
         build_ok = ok
         broken = []
@@ -282,7 +306,7 @@ def main_check(prop, tier, seed, module, replay=None):
             broken = fails
             ctx.proof_failures = [f for f in fails]
             # the driver may still be usable from a previous build only if it was rebuilt: try building it alone
-            ok2, _, f2 = lake_build(["driver"])
+            ok2, _, f2 = lake_build([ctx.driver])
             if not ok2:
                 ctx.notes["driver_build_failed"] = f2[:5]
         axioms, bad_axioms = ({}, [])
@@ -306,7 +330,7 @@ def main_check(prop, tier, seed, module, replay=None):
         # correspondence + oracle (the property module); when something is broken, search deeper
         ensure_repo_on_path()
         ctx.deep = bool(ctx.proof_failures)
-        if os.path.exists(DRIVER):
+        if os.path.exists(os.path.join(BIN, ctx.driver)) and not ctx.notes.get("driver_build_failed"):
             module.run(ctx)
             if ctx.corr_diffs and not ctx.failures and not ctx.deep and hasattr(module, "search"):
                 ctx.deep = True
